@@ -144,7 +144,12 @@ type c12Scenario struct {
 	Base      int    `json:"key_base"`
 	Traffic   bool   `json:"interleaved_heartbeats_and_locations"`
 	PreRoll   int    `json:"pre_rolled_heartbeats"`
+	// ZeroPhone: terminal 0 has the all-zero phone number (its key is the string of zeros, nothing trimmed), and connections
+	// that never join (one unsupported message, then gone) come and go before and while it is commanded
+	ZeroPhone bool `json:"terminal_0_has_the_all_zero_phone,omitempty"`
 }
+
+var c12ZeroBusy atomic.Bool
 
 var c12Tag atomic.Uint64
 
@@ -166,7 +171,11 @@ func c12Run(srv *svc.Server, sc c12Scenario, r *core.Rand) (viol [][2]string, in
 	}
 	terms := make([]*termState, sc.Terms)
 	for i := range terms {
-		t, err := svc.Dial(srv.Addr, r.Bool(), fmt.Sprintf("%d", sc.Base+i))
+		digits := fmt.Sprintf("%d", sc.Base+i)
+		if sc.ZeroPhone && i == 0 {
+			digits = "0"
+		}
+		t, err := svc.Dial(srv.Addr, r.Bool(), digits)
 		if err != nil {
 			return nil, true, false, nil
 		}
@@ -204,6 +213,29 @@ func c12Run(srv *svc.Server, sc c12Scenario, r *core.Rand) (viol [][2]string, in
 				ts.frames++
 			}
 		}
+	}
+	if sc.ZeroPhone {
+		bystander := func(k int) {
+			b, err := svc.Dial(srv.Addr, k%2 == 0, fmt.Sprintf("%d", sc.Base+9))
+			if err != nil {
+				return
+			}
+			b.Write(b.Frame(0x0900, uint16(k), []byte{1, 2, 3}))
+			time.Sleep(2 * time.Millisecond)
+			if k%3 == 0 {
+				b.Reset()
+			} else {
+				b.Close()
+			}
+		}
+		bystander(0)
+		bystander(1)
+		time.Sleep(30 * time.Millisecond)
+		go func() {
+			for k := 2; k < 8; k++ {
+				bystander(k)
+			}
+		}()
 	}
 	// terminal behaviour
 	for ti, ts := range terms {
@@ -577,6 +609,7 @@ func c12Worker(c *core.Collector, x *Ctx) {
 			sc.Callers = 6 + r.Intn(10) // many simultaneous completions on one connection
 			sc.Terms = 1
 		}
+		sc.ZeroPhone = i%9 == 4
 		list = append(list, sc)
 	}
 	// serial wrap: first scenario of batch 0, alone, with delay injection switched off during the pre-roll
@@ -613,6 +646,15 @@ func c12Worker(c *core.Collector, x *Ctx) {
 		go func(i int, sc c12Scenario) {
 			defer wg.Done()
 			defer func() { <-sem }()
+			if sc.ZeroPhone {
+				// one scenario at a time may own the all-zero phone
+				if c12ZeroBusy.CompareAndSwap(false, true) {
+					defer c12ZeroBusy.Store(false)
+					c.Count("scenarios_with_the_all_zero_phone", 1)
+				} else {
+					sc.ZeroPhone = false
+				}
+			}
 			x.Journal.Log(false, "scenario %d %+v", i, sc)
 			mark := svc.TraceMark()
 			viol, incon, poisoned, calls := c12Run(srv, sc, core.NewRand(c.Seed, "c12s", uint64(x.Batch*100000+i)))
